@@ -70,6 +70,9 @@ func c18(c *ctx) error {
 	}
 	t2 := time.Now()
 	err := c18Programs(c)
+	if err == nil {
+		err = c18Races(c)
+	}
 	c.extra["phase_seconds"] = map[string]float64{"gen": t1.Sub(t0).Seconds(), "store": t2.Sub(t1).Seconds(), "programs": time.Since(t2).Seconds()}
 	return err
 }
@@ -1210,6 +1213,137 @@ func (w *c18W) buildWide() {
 			}
 		}
 	}
+}
+
+// ---- a write and a truncate of one file in flight together --------------------------------------
+// jacobsa/fuse serves every kernel request in its own goroutine. The staging file system is wrapped
+// (verif hook) so that the write is held right after its data reached the backing file; the truncate
+// runs; the write finishes. Whatever the serialisation, the size the mount shows is the number of
+// bytes it serves and the size it commits.
+
+type c18PauseFs struct {
+	afero.Fs
+	mu      sync.Mutex
+	armed   bool
+	written chan struct{}
+	resume  chan struct{}
+}
+
+type c18PauseFile struct {
+	afero.File
+	fs *c18PauseFs
+}
+
+func (f *c18PauseFs) OpenFile(name string, flag int, perm os.FileMode) (afero.File, error) {
+	file, err := f.Fs.OpenFile(name, flag, perm)
+	if err != nil {
+		return nil, err
+	}
+	return &c18PauseFile{File: file, fs: f}, nil
+}
+
+func (f *c18PauseFile) WriteAt(p []byte, off int64) (int, error) {
+	n, err := f.File.WriteAt(p, off)
+	f.fs.mu.Lock()
+	armed := f.fs.armed
+	f.fs.armed = false
+	f.fs.mu.Unlock()
+	if armed {
+		close(f.fs.written)
+		select {
+		case <-f.fs.resume:
+		case <-time.After(5 * time.Second):
+		}
+	}
+	return n, err
+}
+
+func c18Races(c *ctx) error {
+	n := 12
+	if c.thorough() {
+		n = 120
+	}
+	work := os.Getenv("VERIF_WORK")
+	if work == "" {
+		work = os.TempDir()
+	}
+	rng := tr.NewRng(c.seed*77 + 18)
+	for i := 0; i < n; i++ {
+		dir := filepath.Join(work, fmt.Sprintf("c18race-%d-%d", c.seed, i))
+		e, err := c18NewEnv(dir)
+		if err != nil {
+			return err
+		}
+		pf := &c18PauseFs{written: make(chan struct{}), resume: make(chan struct{})}
+		e.m.VerifWrapStaging(func(inner afero.Fs) afero.Fs { pf.Fs = inner; return pf })
+		mk := &fuseops.CreateFileOp{Parent: fuseops.RootInodeID, Name: "f", Mode: 0o644}
+		if err := e.fs.CreateFile(c18ctx, mk); err != nil {
+			_ = os.RemoveAll(dir)
+			continue
+		}
+		ino := mk.Entry.Child
+		initial := rng.Pick(0, 10, 100, 300)
+		if initial > 0 {
+			_ = e.fs.WriteFile(c18ctx, &fuseops.WriteFileOp{Inode: ino, Offset: 0, Data: tr.GenBytes(uint64(i+1), initial)})
+		}
+		woff, wlen := int64(rng.Pick(0, 0, 5, 50)), rng.Pick(1, 40, 100, 200)
+		tsize := uint64(rng.Pick(0, 3, 10, 60, 500))
+		pf.mu.Lock()
+		pf.armed = true
+		pf.mu.Unlock()
+		wdone := make(chan error, 1)
+		go func() {
+			wdone <- e.fs.WriteFile(c18ctx, &fuseops.WriteFileOp{Inode: ino, Offset: woff, Data: tr.GenBytes(uint64(1000+i), wlen)})
+		}()
+		select {
+		case <-pf.written:
+		case <-time.After(5 * time.Second):
+		}
+		tdone := make(chan error, 1)
+		go func() {
+			tdone <- e.fs.SetInodeAttributes(c18ctx, &fuseops.SetInodeAttributesOp{Inode: ino, Size: &tsize})
+		}()
+		// the truncate completes while the write is held — or it waits for the write (a mount that
+		// serialises the two): both are fine
+		var terr error
+		tfin := false
+		select {
+		case terr = <-tdone:
+			tfin = true
+		case <-time.After(300 * time.Millisecond):
+		}
+		close(pf.resume)
+		werr := <-wdone
+		if !tfin {
+			terr = <-tdone
+		}
+		got := "consistent"
+		if werr != nil || terr != nil {
+			got = fmt.Sprintf("err:write=%s,trunc=%s", c18Errno(werr), c18Errno(terr))
+		} else {
+			ga := &fuseops.GetInodeAttributesOp{Inode: ino}
+			_ = e.fs.GetInodeAttributes(c18ctx, ga)
+			rd := &fuseops.ReadFileOp{Inode: ino, Offset: 0, Dst: make([]byte, 4096)}
+			_ = e.fs.ReadFile(c18ctx, rd)
+			committed := int64(-1)
+			if cerr := e.m.Commit(); cerr == nil {
+				for _, en := range e.b.GetBundleEntries() {
+					if strings.TrimPrefix(en.NameWithPath, "/") == "f" {
+						committed = int64(en.Size)
+					}
+				}
+			}
+			if int64(ga.Attributes.Size) != int64(rd.BytesRead) || committed != int64(rd.BytesRead) {
+				got = fmt.Sprintf("shows:%d-serves:%d-commits:%d", ga.Attributes.Size, rd.BytesRead, committed)
+			}
+		}
+		c.w.Case("race write-vs-truncate")
+		c.w.Op(fmt.Sprintf("race init=%d woff=%d wlen=%d tsize=%d overlapped=%v got=%s", initial, woff, wlen, tsize, tfin, got), "sound")
+		c.w.End()
+		c.w.Count(fmt.Sprintf("race:write-vs-truncate,overlapped=%v", tfin))
+		_ = os.RemoveAll(dir)
+	}
+	return nil
 }
 
 // c18Program generates and runs program number n (a function of the seed and n only).
